@@ -613,8 +613,12 @@ func TestBytes(t *testing.T) {
 		case 1:
 			// deep brace / paren runs around a valid prefix
 			n := rapid.IntRange(1, 10000).Draw(rt, "depth")
-			sym := rapid.SampledFrom([]string{"{", "}", "(", ")", "{{", "}}", "\n", "#", "\""}).Draw(rt, "sym")
+			sym := rapid.SampledFrom([]string{"{", "}", "(", ")", "{{", "}}", "\n", "#", "\"", "f(", "a,", "\"a\","}).Draw(rt, "sym")
 			pre := rapid.SampledFrom([]string{"", "task t() ", "task t() {", "X := join(", "task t(", "task t() -> ("}).Draw(rt, "pre")
+			if id() == "C08" && rapid.IntRange(0, 299).Draw(rt, "very_deep") == 0 {
+				// millions of levels: recursion that is fine for thousands of levels runs out of stack here
+				return repeatedInput(pre, sym, rapid.IntRange(1_000_000, 2_000_000).Draw(rt, "depth_huge"))
+			}
 			return mkInput(pre + repeat(sym, n))
 		default:
 			parts := rapid.SliceOfN(rapid.SampledFrom(byteAlphabet), 0, 14).Draw(rt, "parts")
@@ -626,7 +630,7 @@ func TestBytes(t *testing.T) {
 		}
 	}, func(c InputCase) *rp.Fail {
 		x := c.input()
-		s.Progress(0, []byte(x))
+		s.Progress(0, c.payload())
 		s.Tick()
 		s.Class("space_bytes")
 		if s.WantSample() && len(x) < 200 {
